@@ -34,11 +34,12 @@ def panel(case):
     n, c = case["n"], case["c"]
     lens = case["lengths"]
     rng = np.random.RandomState(case["seed"] % (2 ** 31 - 1))
-    cells = [[np.round(rng.normal(size=lens[i]).cumsum() * case.get("scale", 1.0), 5) for _ in range(c)] for i in range(n)]
+    cstep = (case.get("col_len_step") or 0) if c >= 2 else 0  # variables recorded at different rates: longer series in later columns
+    cells = [[np.round(rng.normal(size=lens[i] + cstep * j).cumsum() * case.get("scale", 1.0), 5) for j in range(c)] for i in range(n)]
     if case.get("int_cells"):
         # integer-valued observations stored with an integer dtype (counts)
         cells = [[np.round(v * 4).astype("int64") for v in row] for row in cells]
-    equal = len(set(lens)) == 1
+    equal = len(set(lens)) == 1 and not cstep
     if case.get("container") == "numpy3d" and equal:
         X = np.array(cells, dtype="int64" if case.get("int_cells") else float)
     else:
@@ -672,7 +673,7 @@ def subchecks():
         S("interpolation", o_interp, panel_cases(unequal=True, extra={"length": i(1, 25)})),
         S("tabularizer", o_tab, panel_cases()),
         S("column_concatenator", o_cc, panel_cases()),
-        S("paa", o_paa, panel_cases(extra={"num_intervals": i(1, 12)}), q=500),
+        S("paa", o_paa, panel_cases(extra={"num_intervals": i(1, 12), "col_len_step": st.sampled_from([0, 0, 3, 4])}), q=500),
         S("interval_segmenter", o_iseg, panel_cases(max_c=1, min_len=4, extra={"intervals_kind": st.sampled_from(["int", "array"]), "k": i(1, 6)})),
         S("random_interval_segmenter", o_riseg, panel_cases(max_c=1, min_len=4, extra={"k": i(1, 4)})),
         S("sliding_window_segmenter", o_swseg, panel_cases(max_c=1, extra={"window_length": i(1, 8)})),
